@@ -236,7 +236,7 @@ def _stack_parts(k):
     return out
 
 
-@lemma('E-stack', 'C06', quick=_stack_parts(2) + [dict(p, M=3) for p in _stack_parts(3)] + [dict(p, M=1, live=True) for p in _stack_parts(5)],
+@lemma('E-stack', 'C06', quick=_stack_parts(2) + [dict(p, M=2) for p in _stack_parts(3)] + [dict(p, M=1, live=True) for p in _stack_parts(5)],
        thorough=_stack_parts(2) + [dict(p, M=7, timeout=5000) for p in _stack_parts(3)] + [dict(p, M=4, timeout=5000) for p in _stack_parts(4)]
        + [dict(p, M=2, live=True, timeout=5000) for p in _stack_parts(5)] + [dict(p, M=1, live=True, timeout=5000) for p in _stack_parts(6)],
        timeout=900, per_path=60,
@@ -332,6 +332,10 @@ def ref_matches_alph(s):
     return E.process(out)
 
 
+def _str_parts_quick():
+    return [{'k': 1}, {'k': 2}, {'k': 3}] + [{'k': 4, 'c1': a, 'c2': b} for a in '*_' for b in ALPH]
+
+
 def _str_parts(N):
     out = [{'k': k} for k in range(1, min(N, 3) + 1)]
     for k in range(4, N + 1):
@@ -344,7 +348,7 @@ def _str_parts(N):
     return out
 
 
-@lemma('E-str', 'C06', quick=_str_parts(4), thorough=[dict(p, timeout=5000) for p in _str_parts(6)], timeout=900, per_path=60,
+@lemma('E-str', 'C06', quick=_str_parts_quick(), thorough=[dict(p, timeout=5000) for p in _str_parts(6)], timeout=900, per_path=60,
        covers=['core_tokens.py:find_core_tokens', 'core_tokens.py:process_emphasis', 'core_tokens.py:Delimiter.__init__',
                'core_tokens.py:matching_opener', 'core_tokens.py:Delimiter.remove', 'core_tokens.py:Delimiter.closed_by'],
        note='every string over {a, space, *, _, .} of length k: same (start, end, kind) matches as the reference; no exception')
